@@ -103,7 +103,8 @@ class C13:
     variants = ("asan",)
     rule = ("accepted texts T (schemas with include() declared in every section) split at random item boundaries of any "
             "depth into a random tree of include files (nesting 1..12, incl. chains), files placed in the working directory "
-            "(relative or absolute names) or behind a search path of 1-3 directories; differential oracle: same return code "
+            "(relative, absolute or ~nobody-prefixed names) or behind a search path of 1-3 directories (optionally with "
+            "same-named directories as decoys in the directories asked first); differential oracle: same return code "
             "and tree as the flat text for nesting <= 10, PARSE_ERROR with >= 1 diagnostic beyond; an error placed after the "
             "include is reported at the including source's name and line; failure histories (missing relative file, missing "
             "absolute file and directory - both with a decoy regular file at <search dir>/<that absolute name> -, "
@@ -173,7 +174,7 @@ class C13:
         s.add("cwd", hx(base))
         names = sorted(files)
         for k, n in enumerate(names):
-            d = base if mode == "cwd" else dirs[(k + case.get("salt", 0)) % (1 if mode == "path1" else 3)]
+            d = base if mode in ("cwd", "tilde") else dirs[(k + case.get("salt", 0)) % (1 if mode == "path1" else 3)]
             place[n] = os.path.join(d, n)
         if mode == "abs":
             # absolute include names
@@ -181,6 +182,19 @@ class C13:
                 main = main.replace("include(\"%s\")" % n, "include(\"%s\")" % place[n])
                 for f in files:
                     files[f] = files[f].replace("include(\"%s\")" % n, "include(\"%s\")" % place[n])
+        if mode == "tilde":
+            # names that start with a tilde but name no account: used as they are, relative to the working directory
+            for n in names:
+                place[n] = os.path.join(base, "~zz9" + n)
+                main = main.replace("include(\"%s\")" % n, "include(\"~zz9%s\")" % n)
+                for f in files:
+                    files[f] = files[f].replace("include(\"%s\")" % n, "include(\"~zz9%s\")" % n)
+        if mode == "path3" and case.get("decoys"):
+            # a directory of the same name in every search directory that is asked before the one holding the file
+            for k, n in enumerate(names):
+                j = (k + case.get("salt", 0)) % 3
+                for d in dirs[:j]:
+                    s.add("mkdir", hx(os.path.join(d, n)))
         for n in names:
             s.add("mkfile", hx(place[n]), hx(files[n]))
         s.add("mkfile", hx(os.path.join(base, "bad.conf")), hx("i_no_such_option = 1\n"))
@@ -286,11 +300,11 @@ class C13:
                                    "error on line %d of the main text reported as %r\nmain %r\nfiles %r" % (bad_line, dg[-1], main, files))
             if fail is None and ie is not None:
                 dg = unhex_diag(t[ie])
-                want = place[en] if mode in ("abs", "path1", "path3") else en
+                want = place[en] if mode in ("abs", "path1", "path3") else ("~zz9" + en if mode == "tilde" else en)
                 if t[ie]["rc"] != 1 or not dg:
                     fail = Failure("error-in-intermediate-file-not-reported", "rc %d diag %r" % (t[ie]["rc"], dg))
-                elif dg[-1][1] != e_line or os.path.basename(dg[-1][0] or "") != en:
-                    fail = Failure("error-after-nested-include/%s" % ("line" if os.path.basename(dg[-1][0] or "") == en else "file"),
+                elif dg[-1][1] != e_line or os.path.basename(dg[-1][0] or "") != os.path.basename(want):
+                    fail = Failure("error-after-nested-include/%s" % ("line" if os.path.basename(dg[-1][0] or "") == os.path.basename(want) else "file"),
                                    "error on line %d of %s (after its nested include returned) reported as %r\nfile %r" % (e_line, en, dg[-1], bad_text))
             if fail is None and case.get("fail_repeat"):
                 bad = [k for k in hist if t[k]["rc"] != 1 or not unhex_diag(t[k])]
@@ -331,7 +345,8 @@ class C13:
             splits = draw(st.lists(st.tuples(frac, frac, frac, st.booleans()), min_size=1, max_size=6))
             chain = draw(st.sampled_from([0, 0, 0, 1, 3, 8, 9, 10, 11]))
             return {"schema": sc, "flags": flags, "tokens": toks, "splits": [list(x) for x in splits], "chain": chain,
-                    "mode": draw(st.sampled_from(["cwd", "cwd", "abs", "path1", "path3"])), "salt": draw(st.integers(0, 2)),
+                    "mode": draw(st.sampled_from(["cwd", "cwd", "abs", "path1", "path3", "path3", "tilde"])), "salt": draw(st.integers(0, 2)),
+                    "decoys": draw(st.booleans()),
                     "fail_kind": draw(st.sampled_from(FAIL_KINDS)), "fail_repeat": draw(st.sampled_from([0, 0, 1, 2, 11, 12]))}
         return case()
 
